@@ -68,12 +68,15 @@ def worker_thread(queue, process_item):
 
 
 @contextmanager
-def worker_pool(queue, process_item, worker_count):
+def worker_pool(queue, process_item, worker_count, release_workers):
     workers = []
     try:
-        for _ in range(worker_count):
-            workers.append(worker_thread(queue, process_item))
-        yield
+        try:
+            for _ in range(worker_count):
+                workers.append(worker_thread(queue, process_item))
+            yield
+        finally:
+            release_workers()
     finally:
         for worker in workers:
             worker.join()
@@ -154,13 +157,14 @@ def run_function_on_graph(
                         if remaining_pred_count_mapping[successor] == 0:
                             queue.put(successor)
 
-    with worker_pool(queue, process_node, worker_count):
-        try:
-            queue.join()
-        finally:
-            stop = True
-            for _ in range(worker_count):
-                queue.put(DONE)
+    def release_workers():
+        nonlocal stop
+        stop = True
+        for _ in range(worker_count):
+            queue.put(DONE)
+
+    with worker_pool(queue, process_node, worker_count, release_workers):
+        queue.join()
 
     if first_node_error:
         raise first_node_error
